@@ -417,7 +417,10 @@ func c17Subjects() []c17Subject {
 		return c17Subject{name, func() ([]c17Method, func()) {
 			w := f()
 			return []c17Method{
-				{"AddSample", true, func(g, a int) { n := w.AddSample(int64(a), int64(1+a%500), a%30); _ = n.AddDroppedSample(int64(a), a%50).MaxInFlight() }},
+				{"AddSample", true, func(g, a int) {
+					n := w.AddSample(int64(a), int64(1+a%500), a%30)
+					_ = n.AddDroppedSample(int64(a), a%50).MaxInFlight()
+				}},
 				{"AddDroppedSample", true, func(g, a int) { n := w.AddDroppedSample(int64(a), a%40); _ = n.AddSample(int64(a), 7, a%60).String() }},
 				{"AddDroppedSampleNow", true, func(g, a int) { _ = w.AddDroppedSample(-1, a%40) }},
 				{"StartTimeNanoseconds", false, func(g, a int) { _ = w.StartTimeNanoseconds() }},
